@@ -5,6 +5,20 @@ import os
 VERIF = os.path.dirname(os.path.dirname(os.path.abspath(__file__)))
 
 CHECKS = {
+    "C06": dict(
+        technique="TLA+ spec of the pileup with an operational (CIGAR walk, one action per operation) and a declarative (spans) definition related by TLC (Pileup.tla, MC_Pileup); TLC-emitted read pool written to real BAMs and loaded by the real Sample / fed to _parse_read; PileupTrace.tla validation of random read sets and NA10860 windows",
+        text="TLC proves operational = declarative, depth conservation, order independence, split invariance, phase-record soundness and quality keeping for every CIGAR of up to 3-4 operations over {M,I,D,S,H,=,X}, flags and 2-3 reads in every order; the real Coverage table, totals, phases and eligibility for the same reads and for random read sets on both strands (plus NA10860 windows) are validated against the spec.",
+        design_ref="DESIGN.md §4 C06",
+        note="Trusted: TLC, harness/gen_reads.py (BAM writer). The comparison with htslib's own pileup is replaced by the spec's declarative spans. N/P CIGAR operations, CRAM and long-read remapping are out of scope.",
+        engine="Pileup",
+    ),
+    "C07": dict(
+        technique="TLA+ spec of depth normalisation over read sets (Depth.tla, MC_Depth: scale invariance, gene linearity, self-profile = 2, empty neutral region rejected); DepthTrace.tla validation of families of simulated BAMs (R, Dup(k,R), gene-only multiples) with BAM and YAML profiles",
+        text="TLC checks the algebraic invariants on every small read multiset; families of real runs (sample, k-fold duplicates, gene-only multiples, self-profile, custom / empty neutral regions, profile from BAM or from the YAML written by the profile command) are validated: recorded region sums, neutral sums, profile values and normalised depths equal the spec's Norm and satisfy the relations between runs.",
+        design_ref="DESIGN.md §4 C07",
+        note="Trusted: TLC, harness/gen_reads.py. 'Structure does not depend on depth' is checked as equality of estimate_cn between R and Dup(k,R); optimality of that structure is C03.",
+        engine="Depth",
+    ),
     "C08": dict(
         technique="TLA+ spec of the coordinate maps and per-kind strand conversion (Coords.tla); TLC exhaustive check of the sequence-level theorem (MC_Coords); TLC-emitted cases replayed into the real Gene loader; CoordsTrace.tla validation of every shipped variant x build and of generated databases, incl. the anchors handed to indelpost / long-read keys",
         text="TLC proves on all short sequences/alignment strings/variants that applying the loaded variant to the genome-oriented reference equals applying the written variant to RefSeq; the same theorem, reference-allele match, map inverse, notation round trip and insertion-anchor agreement are validated by TLC for all 4,620 shipped (variant, build) pairs and thousands of generated databases loaded by the real code.",
@@ -105,6 +119,8 @@ CHECKS = {
 }
 
 ENGINES = [
+    dict(name="Pileup", path="spec/Pileup.tla", serves_properties=["C06"], kind_free_text="TLA+ pileup (operational + declarative); PileupDefs, mc/MC_Pileup, gen/PileupGen, trace/PileupTrace"),
+    dict(name="Depth", path="spec/Depth.tla", serves_properties=["C07"], kind_free_text="TLA+ depth normalisation; mc/MC_Depth, trace/DepthTrace"),
     dict(name="Coords", path="spec/Coords.tla", serves_properties=["C08"], kind_free_text="TLA+ coordinate maps / strand conversion; mc/MC_Coords, gen/CoordsGen, trace/CoordsTrace"),
     dict(name="CatalogueBuild", path="spec/CatalogueBuild.tla", serves_properties=["C09"], kind_free_text="TLA+ loader state machine; mc/MC_Catalogue, gen/CatalogueGen, trace/CatalogueTrace"),
     dict(name="Pipeline", path="spec/Pipeline.tla", serves_properties=["C10"], kind_free_text="TLA+ genotype() state machine; mc/MC_Pipeline, trace/PipelineTrace"),
